@@ -115,3 +115,67 @@ Example ex_steps_trace :
     (true, [(0, 0); (0, 1); (1, 3)]);
     (true, [(1, 3); (0, 2)]); (true, [(1, 3); (0, 2)]) ].
 Proof. vm_compute. reflexivity. Qed.
+
+(** * Authentic operations rejected by the log-integrity rules (no forged signature involved).
+
+    A prune-flagged operation that is validly signed ([o_valid]), not yet stored, and lies at or
+    below the latest stored entry of its log (a fork, or an older prune point after a newer one)
+    is rejected and deletes nothing. *)
+Theorem outdated_prune_point_changes_nothing : forall s o p,
+  o_valid o = true -> o_prune o = true -> has_op s (o_id o) = false ->
+  latest s (o_author o) (o_log o) = Some p -> o_seq o <= r_seq p ->
+  fst (deliver s o) = s /\ res_ok (snd (deliver s o)) = false.
+Proof.
+  intros s o p Hv Hp Hh Hl Hle.
+  assert (Hr : res_ok (snd (deliver s o)) = false).
+  { rewrite deliver_unfold. cbn [snd]. unfold ingest, ingest_with. rewrite Hv, Hh, Hl, Hp. cbn [negb].
+    unfold validate_prunable_backlink. cbn [negb].
+    destruct (0 <? o_seq o) eqn:E0.
+    - assert (E : (o_seq o <=? r_seq p) = true) by (apply N.leb_le; exact Hle). rewrite E. reflexivity.
+    - apply N.ltb_ge in E0. assert (Hz : o_seq o = 0) by lia.
+      unfold validate_backlink.
+      destruct (negb (r_author p =? o_author o)); [reflexivity|].
+      destruct (r_seq p =? U32MAX); [reflexivity|].
+      assert (E : (r_seq p + 1 =? o_seq o) = false) by (apply N.eqb_neq; lia). rewrite E. reflexivity. }
+  split; [apply failed_event_changes_nothing; exact Hr|exact Hr].
+Qed.
+
+Theorem import_of_outdated_prune_point_changes_nothing : forall me s o p,
+  o_valid o = true -> o_prune o = true -> has_op s (o_id o) = false ->
+  latest s (o_author o) (o_log o) = Some p -> o_seq o <= r_seq p ->
+  node_step me s (NImport o) = (s, false).
+Proof.
+  intros me s o p Hv Hp Hh Hl Hle.
+  destruct (outdated_prune_point_changes_nothing s o p Hv Hp Hh Hl Hle) as (Hs & Hr).
+  cbn [node_step]. destruct (deliver s o) as [s' r]. cbn [fst snd] in *. subst s'. rewrite Hr. reflexivity.
+Qed.
+
+(** Whatever the reason of the failure: an import that is reported as failed left the store as it
+    was (the statement the seeded change C04-1 breaks). *)
+Theorem failed_import_changes_nothing : forall me s o,
+  snd (node_step me s (NImport o)) = false -> fst (node_step me s (NImport o)) = s.
+Proof.
+  intros me s o H. rewrite node_import_snd in H. rewrite node_import_fst.
+  apply failed_event_changes_nothing. exact H.
+Qed.
+
+(** Non-vacuity and regression witness: author 1's six-entry log and a validly signed
+    prune-flagged fork at seq 3.  The pipeline rejects it and keeps the log; a pipeline that
+    ignores the prune request only for unauthenticated operations deletes 0, 1, 2. *)
+Definition c04_six_log : list op :=
+  [w_op 1 0 0 1 None false true; w_op 1 0 1 2 (Some 1) false true; w_op 1 0 2 3 (Some 2) false true;
+   w_op 1 0 3 4 (Some 3) false true; w_op 1 0 4 5 (Some 4) false true; w_op 1 0 5 6 (Some 5) false true].
+Definition c04_outdated_prune : op := w_op 1 0 3 77 (Some 900) true true.
+
+Example outdated_prune_point_hypotheses_satisfiable :
+  o_valid c04_outdated_prune = true /\ o_prune c04_outdated_prune = true /\
+  has_op (run c04_six_log) (o_id c04_outdated_prune) = false /\
+  option_map r_seq (latest (run c04_six_log) 1 0) = Some 5 /\
+  deliver (run c04_six_log) c04_outdated_prune = (run c04_six_log, Rejected ESeqNonIncremental).
+Proof. vm_compute. repeat split; reflexivity. Qed.
+
+Theorem C04_prune_unless_invalid_refuted :
+  snd (deliver_prune_unless_invalid (run c04_six_log) c04_outdated_prune) = Rejected ESeqNonIncremental /\
+  map r_seq (run c04_six_log) = [0; 1; 2; 3; 4; 5] /\
+  map r_seq (fst (deliver_prune_unless_invalid (run c04_six_log) c04_outdated_prune)) = [3; 4; 5].
+Proof. vm_compute. repeat split; reflexivity. Qed.
